@@ -17,7 +17,8 @@ Record BRep (s : bstate) (f : bytes) (b : backend) : Prop := {
   br_ks : bks s = bkeys b;
   br_used : bused s = used b;
   br_buf : bbuf s = bufsize b;
-  br_ro : bro s = ro b
+  br_ro : bro s = ro b;
+  br_sess : bsess s = st b
 }.
 
 Definition bout_of (e : option berr) : boutcome := match e with None => BONormal | Some x => BORaise x end.
@@ -27,7 +28,7 @@ Lemma rep_locals s h x v : Rep s h -> Rep (set_local s x v) h.
 Proof. intros [A B C D E F]. constructor; assumption. Qed.
 
 Lemma brep_restore s f b l : BRep s f b -> BRep (restore_loc s l) f b.
-Proof. intros [A1 A2 A3 A4 A5 A6 A7 A8]. constructor; assumption. Qed.
+Proof. intros [A1 A2 A3 A4 A5 A6 A7 A8 A9]. constructor; assumption. Qed.
 
 (* _write(key, value): the translated UKVFile.put on the inner object *)
 Lemma write_code fuel s f b k v :
@@ -37,7 +38,7 @@ Lemma write_code fuel s f b k v :
   BRep s' f' (with_uk b h') /\ bloc s' = bloc s /\
   o = match r with ROk => BONormal | RErr e => BORaise (berr_of e) | _ => BORaise BAttr end.
 Proof.
-  intros R Hh Lk Lv. destruct R as [Rf Rh Ru Rq Rk Rus Rb Rr]. specialize (Ru Hh).
+  intros R Hh Lk Lv. destruct R as [Rf Rh Ru Rq Rk Rus Rb Rr Rs]. specialize (Ru Hh).
   unfold write_prog. cbn [bexec]. rewrite Rh, Hh. cbn [negb bind_inner beval_val]. rewrite Lk. cbn [bind_inner beval_val]. rewrite Lv. cbn [bind_inner].
   set (st0 := set_local (set_local (inner s) "key" (VBytes k)) "value" (VBytes v)).
   assert (R0 : Rep st0 (uk b)) by (apply rep_locals, rep_locals; exact Ru).
@@ -48,7 +49,7 @@ Proof.
   pose proof (put_result_kind f (uk b) k v) as K.
   destruct (exec fuel put_prog st0) as [st1 o1]. destruct (put f (uk b) k v) as [[f' h'] r]. destruct P as [P1 [P2 P3]].
   split; [|split].
-  - constructor; cbn [with_inner inner has_inner bq bks bused bbuf bro with_uk uk has_uk queue bkeys used bufsize ro]; try assumption.
+  - constructor; cbn [with_inner inner has_inner bq bks bused bbuf bro bsess with_uk uk has_uk queue bkeys used bufsize ro st]; try assumption.
     intros _. exact P2.
   - reflexivity.
   - subst o1. destruct K as [K|[e K]]; subst r; [reflexivity|destruct e; reflexivity].
@@ -67,14 +68,14 @@ Lemma flush_loop_code fuel : forall n s f b,
   o = bout_of e /\ BRep s' f' (match e with None => set_used b' (used b) | Some _ => b' end).
 Proof.
   induction n as [|n IH]; intros s f b Hn R; [lia|].
-  pose proof R as R0. destruct R as [Rf Rh Ru Rq Rk Rus Rb Rr].
+  pose proof R as R0. destruct R as [Rf Rh Ru Rq Rk Rus Rb Rr Rs].
   cbn [bwloop flush_loop]. rewrite Rq. destruct (queue b) as [|[k v] q'] eqn:Eq.
   - (* empty queue *)
-    cbn [bout_of]. split; [reflexivity|]. constructor; cbn [set_used uk has_uk queue bkeys used bufsize ro]; try assumption; try reflexivity; try (rewrite Rq; exact Eq).
-  - set (s1 := set_bloc (set_bloc (mkbs (inner s) (has_inner s) q' (bks s) (bused s) (bbuf s) (bro s) (bloc s)) "key" k) "value" v).
+    cbn [bout_of]. split; [reflexivity|]. constructor; cbn [set_used uk has_uk queue bkeys used bufsize ro st]; try assumption; try reflexivity; try (rewrite Rq; exact Eq).
+  - set (s1 := set_bloc (set_bloc (mkbs (inner s) (has_inner s) q' (bks s) (bused s) (bbuf s) (bro s) (bsess s) (bloc s)) "key" k) "value" v).
     set (b1 := mkb (uk b) (has_uk b) q' (bkeys b) (used b) (bufsize b) (ro b) (st b)).
     assert (R1 : BRep s1 f b1).
-    { constructor; cbn [s1 set_bloc inner has_inner bq bks bused bbuf bro b1 uk has_uk queue bkeys used bufsize ro]; try assumption; reflexivity. }
+    { constructor; cbn [s1 set_bloc inner has_inner bq bks bused bbuf bro bsess b1 uk has_uk queue bkeys used bufsize ro st]; try assumption; reflexivity. }
     assert (Lk : bloc s1 "key" = Some k) by reflexivity.
     assert (Lv : bloc s1 "value" = Some v) by reflexivity.
     destruct (has_uk b) eqn:Hh; cbn [negb].
@@ -104,8 +105,8 @@ Proof.
         assert (R2 : Rep (inner s2') h') by (cbn [s2' restore_loc inner]; apply (br_uk _ _ _ W1); reflexivity).
         rewrite (keys_code (inner s2') h' R2). cbn [bexec restore_loc].
         cbn [bout_of]. split; [destruct e; reflexivity|].
-        destruct W1 as [A1 A2 A3 A4 A5 A6 A7 A8].
-        constructor; cbn [s2' restore_loc inner has_inner bq bks bused bbuf bro uk has_uk queue bkeys used bufsize ro with_uk b1] in *; try assumption.
+        destruct W1 as [A1 A2 A3 A4 A5 A6 A7 A8 A9].
+        constructor; cbn [s2' restore_loc inner has_inner bq bks bused bbuf bro bsess uk has_uk queue bkeys used bufsize ro st with_uk b1] in *; try assumption.
         -- reflexivity.
         -- rewrite A4. reflexivity.
     + (* no UKVFile yet: AttributeError from _write and again from update_keys in the handler *)
@@ -156,12 +157,12 @@ Proof.
   rewrite (flush_loop_fuel (S (List.length (queue b))) fuel f b (Nat.lt_succ_diag_r _) Hn).
   destruct (bwloop (bexec fuel loop_body) "key" "value" fuel s) as [s1 o1].
   destruct (flush_loop fuel f b) as [[f' b'] e] eqn:Ef. destruct L as [L1 L2]. subst o1.
-  destruct e as [x|]; cbn [bout_of]; [|change (bexec fuel BUsedReset s1) with (mkbs (inner s1) (has_inner s1) (bq s1) (bks s1) 0%Z (bbuf s1) (bro s1) (bloc s1), BONormal)].
+  destruct e as [x|]; cbn [bout_of]; [|change (bexec fuel BUsedReset s1) with (mkbs (inner s1) (has_inner s1) (bq s1) (bks s1) 0%Z (bbuf s1) (bro s1) (bsess s1) (bloc s1), BONormal)].
   - split; [reflexivity|]. split; [exact L2|reflexivity].
   - split; [reflexivity|]. split; [|reflexivity].
     pose proof (flush_loop_none fuel f b f' b' Hn Ef) as U.
-    destruct L2 as [A1 A2 A3 A4 A5 A6 A7 A8].
-    constructor; cbn [inner has_inner bq bks bused bbuf bro set_used uk has_uk queue bkeys used bufsize ro] in *; try assumption.
+    destruct L2 as [A1 A2 A3 A4 A5 A6 A7 A8 A9].
+    constructor; cbn [inner has_inner bq bks bused bbuf bro bsess set_used uk has_uk queue bkeys used bufsize ro st] in *; try assumption.
     symmetry; exact U.
 Qed.
 
@@ -177,22 +178,22 @@ Theorem bput_code fuel s f b k v :
   let '(f', b', r) := b_put f b k v in
   BRep s' f' b' /\ o = bout_of_res r.
 Proof.
-  intros Hn R Lk Lv. pose proof R as R0. destruct R as [Rf Rh Ru Rq Rk Rus Rb Rr].
+  intros Hn R Lk Lv. pose proof R as R0. destruct R as [Rf Rh Ru Rq Rk Rus Rb Rr Rs].
   unfold bput_prog, b_put. cbn [bexec beval_bool]. rewrite Rr. destruct (ro b) eqn:Ero.
   - cbn [bexec]. split; [exact R0|reflexivity].
-  - repeat (progress (cbn [bexec beval_bytes beval_bool bloc bbuf bused inner has_inner bq bks bro]; rewrite ?Lk, ?Lv)).
+  - repeat (progress (cbn [bexec beval_bytes beval_bool bloc bbuf bused inner has_inner bq bks bro bsess]; rewrite ?Lk, ?Lv)).
     rewrite Rb, Rus. cbn [bufsize used].
     destruct (bufsize b <? used b + Z.of_N (len k) + Z.of_N (len v))%Z eqn:Eo.
-    + set (s1 := mkbs (inner s) (has_inner s) (bq s ++ [(k, v)]) (set_add (bks s) k) (used b + Z.of_N (len k) + Z.of_N (len v))%Z (bufsize b) (bro s) (bloc s)).
+    + set (s1 := mkbs (inner s) (has_inner s) (bq s ++ [(k, v)]) (set_add (bks s) k) (used b + Z.of_N (len k) + Z.of_N (len v))%Z (bufsize b) (bro s) (bsess s) (bloc s)).
       set (b1 := mkb (uk b) (has_uk b) (queue b ++ [(k, v)]) (set_add (bkeys b) k) (used b + Z.of_N (len k) + Z.of_N (len v))%Z (bufsize b) false (st b)).
       assert (R1 : BRep s1 f b1).
-      { constructor; cbn [s1 b1 inner has_inner bq bks bused bbuf bro uk has_uk queue bkeys used bufsize ro]; try assumption; try reflexivity; congruence. }
+      { constructor; cbn [s1 b1 inner has_inner bq bks bused bbuf bro bsess uk has_uk queue bkeys used bufsize ro st]; try assumption; try reflexivity; congruence. }
       assert (Hn1 : (List.length (queue b1) < fuel)%nat) by (cbn [b1 queue]; rewrite app_length; simpl; lia).
       pose proof (flush_code fuel s1 f b1 Hn1 R1) as F.
       destruct (bexec fuel flush_prog s1) as [s2 o2]. destruct (flush f b1) as [[f' b2] e].
       destruct F as [F1 [F2 _]]. subst o2. split; [apply brep_restore; exact F2|]. destruct e; reflexivity.
     + split; [|reflexivity].
-      constructor; cbn [inner has_inner bq bks bused bbuf bro uk has_uk queue bkeys used bufsize ro]; try assumption; try reflexivity; congruence.
+      constructor; cbn [inner has_inner bq bks bused bbuf bro bsess uk has_uk queue bkeys used bufsize ro st]; try assumption; try reflexivity; congruence.
 Qed.
 
 (* get(key) of the buffering layer: a buffered key is flushed first, then read through the translated UKVFile.get *)
@@ -202,7 +203,15 @@ Theorem bget_code fuel s f b k :
   let '(f', b', r) := b_get f b k in
   BRep s' f' b' /\ o = bout_of_res r.
 Proof.
-  intros Hn R Lk. unfold bget_prog, b_get. rewrite bexec_seq, bexec_if. cbn [beval_bool beval_bytes]. rewrite Lk, (br_q _ _ _ R).
+  intros Hn R Lk. unfold bget_prog, b_get, writing. rewrite bexec_seq, bexec_if. cbn [beval_bool beval_bytes]. rewrite Lk, (br_q _ _ _ R), (br_sess _ _ _ R).
+  assert (Hc : (match (if sess_eqb (st b) SWriting then Some (existsb (fun p => beq k (fst p)) (queue b)) else Some false) with
+                | Some true => true | _ => false end) =
+               (match st b with SWriting => true | _ => false end && existsb (fun p => beq k (fst p)) (queue b))%bool).
+  { destruct (st b); cbn [sess_eqb andb]; try reflexivity. destruct (existsb _ (queue b)); reflexivity. }
+  assert (Hc' : (if sess_eqb (st b) SWriting then Some (existsb (fun p => beq k (fst p)) (queue b)) else Some false) =
+                Some (match st b with SWriting => true | _ => false end && existsb (fun p => beq k (fst p)) (queue b))%bool).
+  { destruct (st b); reflexivity. }
+  clear Hc. rewrite Hc'. clear Hc'.
   assert (Read : forall s1 f1 b1, BRep s1 f1 b1 -> bloc s1 "key" = Some k ->
             let '(s', o) := bexec fuel (BCallRet read_prog) s1 in
             BRep s' f1 b1 /\ o = bout_of_res (if negb (has_uk b1) then BErr BAttr else
@@ -216,14 +225,14 @@ Proof.
       pose proof (get_code fuel st0 (uk b1) k R0 Lk0) as G. change (file st0) with (file (inner s1)) in G. rewrite (br_file _ _ _ R1) in G.
       destruct (exec fuel get_prog st0) as [st1 o1]. destruct G as [G1 [G2 [G3 [G4 G5]]]].
       split.
-      + destruct R1 as [A1 A2 A3 A4 A5 A6 A7 A8].
-        constructor; cbn [restore_loc with_inner inner has_inner bq bks bused bbuf bro]; try assumption.
+      + destruct R1 as [A1 A2 A3 A4 A5 A6 A7 A8 A9].
+        constructor; cbn [restore_loc with_inner inner has_inner bq bks bused bbuf bro bsess]; try assumption.
         intros Hx. specialize (A3 Hx). destruct A3 as [B1 B2 B3 B4 B5 B6].
         constructor; rewrite ?G2; try assumption; change (attrs st0) with (attrs (inner s1)); try assumption.
         * intros Hc. rewrite G3, G4. change (strm st0) with (strm (inner s1)). apply B5; exact Hc.
       + subst o1. unfold get. destruct (closed (uk b1)); [reflexivity|]. destruct (lookup (toc (uk b1)) k); reflexivity.
     - split; [apply brep_restore; exact R1|reflexivity]. }
-  destruct (existsb (fun p => beq k (fst p)) (queue b)) eqn:Eq.
+  destruct (match st b with SWriting => true | _ => false end && existsb (fun p => beq k (fst p)) (queue b))%bool eqn:Eq.
   - pose proof (flush_code fuel s f b Hn R) as F. rewrite bexec_call.
     destruct (bexec fuel flush_prog s) as [s2 o2]. destruct (flush f b) as [[f1 b1] e]. destruct F as [F1 [F2 _]]. subst o2.
     destruct e as [x|]; cbn [bout_of].
@@ -257,7 +266,7 @@ Lemma begin_code fuel (m : mode) prog s f b hh1 hh2 bb0 rest :
   let '(f', h') := open_ f (uk b) m in
   o = BONormal /\ BRep s' f' (opened b h').
 Proof.
-  intros -> Hfuel R Hf L1 L2 L0 Hh0 Hin. pose proof R as R0. destruct R as [Rf Rh Ru Rq Rk Rus Rb Rr].
+  intros -> Hfuel R Hf L1 L2 L0 Hh0 Hin. pose proof R as R0. destruct R as [Rf Rh Ru Rq Rk Rus Rb Rr Rs].
   cbn [bexec beval_bool]. rewrite Rh. destruct (has_uk b) eqn:Hh; cbn [negb].
   - (* the UKVFile exists: open(mode) *)
     specialize (Ru eq_refl). cbn [bexec]. rewrite ?Rh. cbn [negb bind_inner beval_val].
@@ -273,7 +282,7 @@ Proof.
     destruct (exec fuel open_prog st0) as [st1 o1]. destruct (open_ f (uk b) m) as [f' h'].
     destruct O as [O1 [O2 O3]].
     split; [destruct O2 as [O2|O2]; subst o1; reflexivity|].
-    constructor; cbn [with_inner inner has_inner bq bks bused bbuf bro opened uk has_uk queue bkeys used bufsize ro]; try assumption; try reflexivity.
+    constructor; cbn [with_inner inner has_inner bq bks bused bbuf bro bsess opened uk has_uk queue bkeys used bufsize ro st]; try assumption; try reflexivity.
     intros _. exact O3.
   - (* first session: UKVFile(path, mode=...) *)
     rewrite (Hh0 eq_refl). cbn [bexec bind_inner beval_val].
@@ -292,7 +301,7 @@ Proof.
     destruct (exec fuel init_prog st0) as [st1 o1]. destruct (open_ f h0 m) as [f' h'].
     destruct I as [I1 [I2 I3]]. subst o1.
     split; [reflexivity|].
-    constructor; cbn [inner has_inner bq bks bused bbuf bro opened uk has_uk queue bkeys used bufsize ro]; try assumption; try reflexivity.
+    constructor; cbn [inner has_inner bq bks bused bbuf bro bsess opened uk has_uk queue bkeys used bufsize ro st]; try assumption; try reflexivity.
     intros _. exact I3.
 Qed.
 
@@ -321,12 +330,12 @@ Theorem end_code fuel prog s f b :
   let '(s', o) := bexec fuel prog s in
   o = BONormal /\ BRep s' f (with_uk b (close_ (uk b))).
 Proof.
-  intros -> R Hh M. destruct R as [Rf Rh Ru Rq Rk Rus Rb Rr]. specialize (Ru Hh).
+  intros -> R Hh M. destruct R as [Rf Rh Ru Rq Rk Rus Rb Rr Rs]. specialize (Ru Hh).
   cbn [bexec]. rewrite Rh, Hh. cbn [negb bind_inner].
   pose proof (close_code fuel (inner s) (uk b) Ru M) as C.
   destruct (exec fuel close_prog (inner s)) as [st1 o1]. destruct C as [C1 [C2 [C3 C4]]]. subst o1.
   split; [reflexivity|].
-  constructor; cbn [with_inner inner has_inner bq bks bused bbuf bro with_uk uk has_uk queue bkeys used bufsize ro]; try assumption.
+  constructor; cbn [with_inner inner has_inner bq bks bused bbuf bro bsess with_uk uk has_uk queue bkeys used bufsize ro st]; try assumption.
   - rewrite C1. exact Rf.
   - intros _. exact C2.
 Qed.
